@@ -54,6 +54,7 @@ fn main() {
     let mut shards = 8usize;
     let mut batch = 0u64;
     let mut from_replay: Option<String> = None;
+    let mut exclude: Vec<usize> = Vec::new();
     let mut i = 1;
     while i < args.len() {
         match args[i].as_str() {
@@ -64,6 +65,7 @@ fn main() {
             "--shards" => shards = args[i + 1].parse().unwrap(),
             "--batch" => batch = args[i + 1].parse().unwrap(),
             "--from-replay" => from_replay = Some(args[i + 1].clone()),
+            "--exclude" => exclude = args[i + 1].split(',').filter_map(|x| x.parse().ok()).collect(),
             _ => {}
         }
         i += 2;
@@ -169,6 +171,20 @@ fn main() {
     }
     if from_replay.is_none() {
         defs.extend(stress_defs());
+    }
+    // subjects that do not compile on the tree under test (found by the check script) become placeholders: the indices
+    // of all other subjects stay what they were
+    for &i in &exclude {
+        if i < defs.len() {
+            defs[i] = SubjectDef {
+                family: "excluded".into(),
+                def: model::spec::DefSpec { utf8: true, subpatterns: vec![], skips: vec![], variants: vec![vec![model::spec::PatSpec::token(model::spec::LitSpec::str("a"))]] },
+                skip_log: false,
+                has_value: vec![],
+                error_cb: false,
+                twin: false,
+            };
+        }
     }
     let set = SubjectSet { seed, tier: tier.clone(), defs };
 
